@@ -87,6 +87,24 @@ def setup(tier):
                 m.name, a, b, result, m.get_value.__wrapped_orig__(m, b, a)))
     contracts.install(pp, "get_value", post=post_pget, owner=pp.PairwiseMatrix)
 
+    # the look-up the calculation itself performs for a pair of protein atoms: the maximum shift and the
+    # cut-offs it works with are those of the tables (whatever conformation the atoms belong to)
+    import propka.version as pv
+
+    def post_hb(snap, result, exc, args, kwargs):
+        if exc is not None:
+            return
+        ver, a1, a2 = args[0], args[1], args[2]
+        contracts.count("hydrogen_bond_parameter_lookups")
+        par = ver.parameters
+        want_v = par.sidechain_interaction
+        want_c = par.sidechain_cutoffs.get_value(a1.group_type, a2.group_type)
+        got_v, got_c = result[0], result[1]
+        if got_v != want_v or tuple(got_c) != tuple(want_c):
+            contracts.report("calculation-uses-other-values-than-the-tables", "hydrogen-bond parameters for (%s, %s): the calculation works with %r / %r, the tables say %r / %r" % (
+                a1.group_type, a2.group_type, got_v, tuple(got_c), want_v, tuple(want_c)))
+    contracts.install(pv, "get_hydrogen_bond_parameters", post=post_hb, owner=pv.VersionA)
+
 
 NAMES = ["COO", "HIS", "CYS", "TYR", "LYS", "ARG", "N+", "AMD", "TRP", "ROH", "CG", "C2N", "N30", "N31", "NAR", "OCO",
          "OH", "O3", "Cl", "F", "NAM", "N1", "O2", "OP", "SH", "X1", "Zz", "a", "LONGNAME", "B-2"]
@@ -394,6 +412,10 @@ def run_case(case, tier):
         LOOKED_UP.clear()
         recs = sources.full_protein(rng.choice(("1HPX.pdb", "4DFR.pdb", "1FTJ-Chain-A.pdb"))) if rng.random() < 0.3 \
             else sources.random_small_structure(rng, 100, 900)
+        if rng.random() < 0.4:
+            # several conformations with mutants: group types that only a later conformation holds
+            from .. import multiconf
+            recs, _d = multiconf.build(rng, base=sources.random_small_structure(rng, 100, 700))
         run = obs.run_single(pdbio.dump(recs), keep_mol=True)
         counts["pipeline_runs"] = 1
         if run.mol is not None:
